@@ -149,15 +149,18 @@ protected:
     void unlock(Fn &&fn) {
         //lock must be locked to unlock
         assert(_requests.load(std::memory_order_relaxed) != nullptr);
+        COCLS_VERIF_POINT(mx_unlock_pre);
         //unlock operation check _queue, whether there are requests
         if (!_queue) [[likely]] {
             //if queue is empty, try to unlock. Try to replace doorman with nullptr;
             auto x = doorman();
             if (_requests.compare_exchange_strong(x, nullptr, std::memory_order_release)) [[likely]] {
                 //if this passes, unlock operation is complete!
+                COCLS_VERIF_EVENT(ev_mx_unlock_fast, this, 0);
                 return;
             }
             assert(x != nullptr);
+            COCLS_VERIF_POINT(mx_unlock_slow);
             //failed, so there are awaiter
             //the queue was build above doorman (build_queue during lock)
             //so rebuild queue now (it should be empty)
@@ -172,6 +175,8 @@ protected:
         //clear _next ptr to avoid leaking invalid pointer to next code
         first->_next = nullptr;
         //resume awaiter - it has ownership now
+        COCLS_VERIF_EVENT(ev_mx_unlock_handover, this, 0);
+        COCLS_VERIF_POINT(mx_unlock_grant);
         fn(first);
         //now the _queue is also handled by the new owners
     }
@@ -180,7 +185,9 @@ protected:
     bool ready() {
         //we expect nullptr in _requests, try to put doorman there
         awaiter *n = nullptr;
+        COCLS_VERIF_POINT(mx_ready_pre);
         bool ok = _requests.compare_exchange_strong(n, doorman());
+        if (ok) {COCLS_VERIF_EVENT(ev_mx_lock_fast, this, 0);}
         //if ok = true, object is guarder by doorman
         return ok;
     }
@@ -189,9 +196,11 @@ protected:
     bool subscribe(awaiter *aw) {
         //so subscribe to _requests
         aw->subscribe(_requests);
+        COCLS_VERIF_POINT(mx_sub_post);
         //now check result of _next, which gives as hint, how lock operation ended
         //if the _next is null, the lock was unlock
         if (aw->_next== nullptr) [[likely]] {
+            COCLS_VERIF_EVENT(ev_mx_lock_sub_free, this, 0);
             //because current awaiter will be destroyed, we need to replace self
             //with a doorman()
             //the function build_queue does this, even if there is no requests currentl
@@ -202,6 +211,7 @@ protected:
             return false;
         } else {
             //we are subscribed, so continue in suspend
+            COCLS_VERIF_EVENT(ev_mx_lock_wait, this, 0);
             return true;
         }
     }
@@ -210,11 +220,15 @@ protected:
         assert("Can't build queue if there are items in it" && _queue == nullptr);
         //atomically swap top of _requests with doorman
         //we use acquire order - to see changes on _next
+        COCLS_VERIF_POINT(mx_build_pre);
         awaiter *req = _requests.exchange(doorman(), std::memory_order_acquire);
+        COCLS_VERIF_POINT(mx_build_post);
         //if req is defined and until stop is reached
         while (req  && req != stop) {
             //pick top item, remove it and push it to _queue
             auto x = req;
+            COCLS_VERIF_EVENT(ev_mx_rebuild_node, x, 0);
+            COCLS_VERIF_POINT(mx_build_node);
             req = req->_next;
             x->_next = _queue;
             _queue= x;
